@@ -55,7 +55,15 @@ func runAliasChain(op string) string {
 	cr := &rng{s: seed}
 	var pool []*chainDoc
 	var log []string
+	// serialized forms the caller keeps: Deserialize reads its input, it does not own it — the bytes must stay as they
+	// are whatever the Serializer is used for afterwards, and must deserialize to the same document again
+	type keptBlob struct {
+		orig, copy []byte
+		want, how  string
+	}
+	var blobs []keptBlob
 	shared := simdjson.NewSerializer()
+	sharedD := simdjson.NewSerializer()
 	newDoc := func() string {
 		cfg := defaultCfg(cr)
 		cfg.maxDepth, cfg.maxMembers = 1+cr.intn(3), 2+cr.intn(6)
@@ -71,6 +79,11 @@ func runAliasChain(op string) string {
 		return d.pj, d.id
 	}
 	check := func(after string) string {
+		for _, b := range blobs {
+			if string(b.orig) != string(b.copy) {
+				return fmt.Sprintf("after %s the serialized bytes handed to %s were modified; history: %s", after, b.how, strings.Join(log, "; "))
+			}
+		}
 		for _, d := range pool {
 			if got := chainText(d.pj); got != d.want {
 				return fmt.Sprintf("after %s the document made by %s reads %q, it read %q when it was made; history: %s", after, d.how, clipS(got), clipS(d.want), strings.Join(log, "; "))
@@ -119,19 +132,29 @@ func runAliasChain(op string) string {
 			ser.CompressMode([]simdjson.CompressMode{simdjson.CompressNone, simdjson.CompressFast, simdjson.CompressDefault, simdjson.CompressBest}[cr.intn(4)])
 			blob := ser.Serialize(nil, *src.pj)
 			dst, dn := takeDst()
-			if dst == src.pj {
-				// the source itself was taken as destination: legal, the blob is complete
+			// the reading side: the same Serializer, a long-lived one of its own (an application that only reads: nothing
+			// ever resets its scratch buffers by serializing), or a fresh one
+			dser := ser
+			switch cr.intn(3) {
+			case 0:
+				dser = sharedD
+			case 1:
+				dser = simdjson.NewSerializer()
 			}
-			pj, err := ser.Deserialize(blob, dst)
+			pj, err := dser.Deserialize(blob, dst)
 			desc = fmt.Sprintf("%d:Deserialize(of %s, dst=%s)", s, src.id, dn)
 			if err != nil {
 				return fmt.Sprintf("%s failed: %v; history: %s", desc, err, strings.Join(log, "; "))
 			}
-			for k := range blob {
-				blob[k] = 0xEE
-			}
 			d := &chainDoc{pj: pj, how: desc, id: "#" + strconv.Itoa(s)}
 			d.want = chainText(pj)
+			if cr.chance(1, 2) {
+				blobs = append(blobs, keptBlob{orig: blob, copy: append([]byte(nil), blob...), want: d.want, how: desc})
+			} else {
+				for k := range blob {
+					blob[k] = 0xEE // the caller recycles its buffer
+				}
+			}
 			if dst != src.pj && d.want != src.want {
 				return fmt.Sprintf("%s reads %q, its source reads %q; history: %s", desc, clipS(d.want), clipS(src.want), strings.Join(log, "; "))
 			}
@@ -179,6 +202,15 @@ func runAliasChain(op string) string {
 		log = append(log, desc)
 		if bad := check(desc); bad != "" {
 			return bad
+		}
+	}
+	for _, b := range blobs {
+		pj, err := simdjson.NewSerializer().Deserialize(b.orig, nil)
+		if err != nil {
+			return fmt.Sprintf("the serialized bytes handed to %s no longer deserialize: %v; history: %s", b.how, err, strings.Join(log, "; "))
+		}
+		if got := chainText(pj); got != b.want {
+			return fmt.Sprintf("the serialized bytes handed to %s now deserialize to %q, they gave %q; history: %s", b.how, clipS(got), clipS(b.want), strings.Join(log, "; "))
 		}
 	}
 	return "ok " + strconv.Itoa(len(log))
